@@ -427,8 +427,8 @@ class PGPSignature(Armorable, ParentRef, PGPObject):
             _data += re.subn(br'\r?\n', b'\r\n', subject)[0]
 
         if self.type in {SignatureType.Generic_Cert, SignatureType.Persona_Cert, SignatureType.Casual_Cert,
-                         SignatureType.Positive_Cert, SignatureType.CertRevocation, SignatureType.Subkey_Binding,
-                         SignatureType.PrimaryKey_Binding}:
+                         SignatureType.Positive_Cert, SignatureType.Attestation, SignatureType.CertRevocation,
+                         SignatureType.Subkey_Binding, SignatureType.PrimaryKey_Binding}:
             """
             When a signature is made over a key, the hash data starts with the
             octet 0x99, followed by a two-octet length of the key, and then body
@@ -502,7 +502,7 @@ class PGPSignature(Armorable, ParentRef, PGPObject):
             _data += b'\x99' + self.int_to_bytes(len(_s), 2) + _s
 
         if self.type in {SignatureType.Generic_Cert, SignatureType.Persona_Cert, SignatureType.Casual_Cert,
-                         SignatureType.Positive_Cert, SignatureType.CertRevocation}:
+                         SignatureType.Positive_Cert, SignatureType.Attestation, SignatureType.CertRevocation}:
             """
             A certification signature (type 0x10 through 0x13) hashes the User
             ID being bound to the key into the hash context after the above
